@@ -656,7 +656,7 @@ def conf_pair(ip1='192.168.0.1', ip2='192.168.0.2', dh=('ecp256',), encr=('aes25
               child_integ=('sha256',), child_dh=(), ip_proto='tcp', peer_port_a=0, lifetime=300,
               ike_lifetime=900, dpd=60, psk_a='testing', psk_b='testing2', id_a='alice@openikev2',
               id_b='bob@openikev2', subnets=None, dh_b=None, rsa=None, index_a=1, index_b=2,
-              peer_psk_seen_by_b=None, peer_id_seen_by_b=None, child_dh_b=None):
+              peer_psk_seen_by_b=None, peer_id_seen_by_b=None, child_dh_b=None, over_a=None, over_b=None):
     """Two compatible (or deliberately incompatible) single-connection configurations."""
     def protect(my_port, peer_port, index, my_subnet=None, peer_subnet=None, cdh=None):
         d = {'index': index, 'ip_proto': ip_proto, 'mode': mode, 'lifetime': lifetime, 'my_port': my_port,
@@ -680,6 +680,17 @@ def conf_pair(ip1='192.168.0.1', ip2='192.168.0.2', dh=('ecp256',), encr=('aes25
         'dh': list(dh_b or dh), 'integ': list(integ), 'prf': list(prf), 'encr': list(encr),
         'lifetime': ike_lifetime, 'dpd': dpd,
         'protect': [protect(peer_port_a, 0, index_b, sub_b, sub_a, child_dh_b)]}}
+    # deliberate asymmetries: {'conn': {...}, 'protect': {...}, 'my_auth': {...}, 'peer_auth': {...}} merged into one side
+    for conf, over in ((conf_a, over_a), (conf_b, over_b)):
+        if over:
+            conf['conn'].update(over.get('conn', {}))
+            conf['conn']['protect'][0].update(over.get('protect', {}))
+            conf['conn']['my_auth'].update(over.get('my_auth', {}))
+            conf['conn']['peer_auth'].update(over.get('peer_auth', {}))
+            for extra in over.get('more_protect', []):
+                d = dict(conf['conn']['protect'][0])
+                d.update(extra)
+                conf['conn']['protect'].append(d)
     if rsa:
         priv_a, pub_a, priv_b, pub_b = rsa
         conf_a['conn']['my_auth'] = {'id': id_a, 'privkey': priv_a}
